@@ -57,6 +57,11 @@ pub enum SOp {
     /// user assertion failing when the last recorded result of this thread equals v
     FailIfLast(u8, i64),
     Yield,
+    /// user assertion failing while the thread owns an object whose destructor locks mutex m (not held by this
+    /// thread): the destructor runs during the unwind and may have to wait for the holder
+    FailDropLock(u8, u8),
+    /// touches a `loom::thread_local!` whose value owns a loom Arc of an atomic and updates it in its destructor
+    Tls,
 }
 
 #[derive(Clone, Debug, PartialEq, Eq, Hash, Serialize, Deserialize)]
@@ -639,7 +644,7 @@ impl<'a> Machine<'a> {
                 adv(&mut ns);
                 v.push((ns, true, None));
             }
-            SOp::Fail(id) | SOp::FailInCell(id) | SOp::FailInAtomicMut(id) => {
+            SOp::Fail(id) | SOp::FailInCell(id) | SOp::FailInAtomicMut(id) | SOp::FailDropLock(id, _) => {
                 ns.failed = Some(id);
                 v.push((ns, true, None));
             }
@@ -651,7 +656,7 @@ impl<'a> Machine<'a> {
                 }
                 v.push((ns, true, None));
             }
-            SOp::Yield => {
+            SOp::Yield | SOp::Tls => {
                 tick(&mut ns);
                 adv(&mut ns);
                 v.push((ns, true, None));
@@ -935,6 +940,7 @@ pub fn gen_sync(rng: &mut Rng, t: usize, k: usize, kinds: &str, o: GenOpts) -> S
                         }
                         Incr(m as u8)
                     }
+                    'T' => Tls,
                     'F' => {
                         if !o.fails {
                             continue;
@@ -947,6 +953,10 @@ pub fn gen_sync(rng: &mut Rng, t: usize, k: usize, kinds: &str, o: GenOpts) -> S
                         match ops.last() {
                             Some(TryLock(_)) | Some(TryRead) | Some(TryWrite) if rng.chance(1, 2) => FailIfLast(th as u8, rng.below(2) as i64),
                             Some(TryRecv) if rng.chance(1, 2) => FailIfLast(th as u8, -1),
+                            _ if rng.chance(1, 4) && (held[0] == 0 || held[1] == 0) => {
+                                let m = if held[0] == 0 { 0 } else { 1 };
+                                FailDropLock(th as u8, m as u8)
+                            }
                             _ => Fail(th as u8),
                         }
                     }
@@ -992,6 +1002,30 @@ pub fn gen_sync(rng: &mut Rng, t: usize, k: usize, kinds: &str, o: GenOpts) -> S
             ops.push(RwUnlock);
         }
         threads.push(ops);
+    }
+    // a destructor that locks m during the unwind must be able to get the lock: no other thread waits for anything
+    // (or may keep m for good) while it holds m; otherwise the failure is a plain one
+    for th in 0..threads.len() {
+        for i in 0..threads[th].len() {
+            if let FailDropLock(id, m) = threads[th][i] {
+                let safe = (0..threads.len()).filter(|u| *u != th).all(|u| {
+                    let mut holding = false;
+                    for op in &threads[u] {
+                        match *op {
+                            Lock(x) if x == m => holding = true,
+                            TryLock(x) if x == m => holding = true,
+                            Unlock(x) if x == m => holding = false,
+                            Lock(_) | Read | Write | Join(_) | Recv | CvWait | CvWaitUntil(_) | NWait | Park | AwaitA(..) | Fail(_) | FailInCell(_) | FailInAtomicMut(_) | FailIfLast(..) | FailDropLock(..) if holding => return false,
+                            _ => {}
+                        }
+                    }
+                    !holding
+                });
+                if !safe {
+                    threads[th][i] = Fail(id);
+                }
+            }
+        }
     }
     SProg { threads, loom_arc: rng.below(100) < o.loom_arc_pct, forget_rx: rng.below(100) < o.forget_rx_pct, rx_owner: rx_owner as u8 }
 }
@@ -1076,6 +1110,11 @@ pub fn well_formed(l: &[SOp], th: usize) -> bool {
                     return false;
                 }
             }
+            SOp::FailDropLock(_, m) => {
+                if held[m as usize] != 0 {
+                    return false;
+                }
+            }
             SOp::Read | SOp::Write | SOp::TryRead | SOp::TryWrite => {
                 if rw != 0 {
                     return false;
@@ -1123,7 +1162,29 @@ pub struct CellsSync(pub [loom::cell::UnsafeCell<u64>; 2]);
 unsafe impl Sync for CellsSync {}
 unsafe impl Send for CellsSync {}
 
+struct LockOnDrop<'a>(&'a loom::sync::Mutex<i64>);
+impl Drop for LockOnDrop<'_> {
+    fn drop(&mut self) {
+        if let Ok(mut g) = self.0.lock() {
+            *g += 0;
+        }
+    }
+}
+
+struct TlsProbe(std::cell::RefCell<Option<loom::sync::Arc<loom::sync::atomic::AtomicUsize>>>);
+impl Drop for TlsProbe {
+    fn drop(&mut self) {
+        if let Some(a) = self.0.borrow_mut().take() {
+            a.fetch_add(1, std::sync::atomic::Ordering::Relaxed);
+        }
+    }
+}
+loom::thread_local! {
+    static TLS_PROBE: TlsProbe = TlsProbe(std::cell::RefCell::new(None));
+}
+
 pub struct Objs {
+    tls_atom: Option<loom::sync::Arc<loom::sync::atomic::AtomicUsize>>,
     mutex: [loom::sync::Mutex<i64>; 2],
     rw: loom::sync::RwLock<i64>,
     cv: loom::sync::Condvar,
@@ -1297,6 +1358,11 @@ fn exec(p: &SProg, t: usize, o: &Objs, rx: Option<&loom::sync::mpsc::Receiver<u8
                 }
             }
             SOp::Yield => loom::thread::yield_now(),
+            SOp::FailDropLock(id, m) => {
+                let _on_drop = LockOnDrop(&o.mutex[m as usize]);
+                panic!("{}{}", USER_PANIC_PREFIX, id)
+            }
+            SOp::Tls => TLS_PROBE.with(|p| *p.0.borrow_mut() = o.tls_atom.clone()),
         }
         let mut s = it.lock().unwrap();
         if res != i64::MIN {
@@ -1408,6 +1474,7 @@ pub fn run_loom(p: &SProg, cfg: &SCfg) -> SRun {
             }
             let (tx, rx) = loom::sync::mpsc::channel::<u8>();
             let objs = Objs {
+                tls_atom: if p2.has(|o| matches!(o, SOp::Tls)) { Some(loom::sync::Arc::new(loom::sync::atomic::AtomicUsize::new(0))) } else { None },
                 mutex: [loom::sync::Mutex::new(0), loom::sync::Mutex::new(0)],
                 rw: loom::sync::RwLock::new(0),
                 cv: loom::sync::Condvar::new(),
